@@ -425,6 +425,10 @@ func renderGFF(rows []gffRow, genome string, withFasta, withRegion bool, refName
 // set by a generator around a call of genVarCase: queries dense in IUPAC codes
 var denseIUPAC bool
 
+// sparseLong: set by genVarCase for a case at scale (a genome of several hundred bases under one long gene, many queries with one
+// substitution each at consecutive positions, now and then a deletion of 64-200 bases)
+var sparseLong bool
+
 type msa struct {
 	refRow string
 	names  []string
@@ -475,6 +479,7 @@ func buildMSA(r *RNG, genome string, nq int, withIns bool, gapRich bool) msa {
 		}
 		return b.String()
 	}
+	sparseScan := r.Intn(L)
 	m := msa{}
 	m.refRow = build([]byte(genome), func(s site) string { return strings.Repeat("-", s.length) })
 	m.names = randNames(r, nq, "")
@@ -487,6 +492,15 @@ func buildMSA(r *RNG, genome string, nq int, withIns bool, gapRich bool) msa {
 			rate, iupacIn = 2, 1
 			if r.Chance(1, 4) {
 				iupacIn = 2
+			}
+		}
+		if sparseLong {
+			rate = 1 << 30
+			p := (sparseScan + i) % L
+			q[p] = r.Pick(strings.ReplaceAll(symACGT, strings.ToUpper(string(genome[p])), ""))
+			if r.Chance(1, 3) {
+				p = r.Intn(L)
+				q[p] = r.Pick(strings.ReplaceAll(symACGT, strings.ToUpper(string(genome[p])), ""))
 			}
 		}
 		for p := range q {
@@ -512,9 +526,21 @@ func buildMSA(r *RNG, genome string, nq int, withIns bool, gapRich bool) msa {
 		if gapRich {
 			nd = r.Range(1, 5)
 		}
+		if sparseLong {
+			nd = 0
+			if r.Chance(1, 3) {
+				nd = 1
+			}
+		}
 		for k := 0; k < nd; k++ {
 			ln := r.Range(1, 5)
+			if sparseLong {
+				ln = r.PickInt([]int{63, 64, 65, 100, 128, 129, 200})
+			}
 			st := r.Range(0, L-1)
+			if sparseLong {
+				st = r.Range(1, L/2)
+			}
 			switch r.Intn(6) {
 			case 0:
 				st = 0
@@ -575,9 +601,22 @@ type varOpts struct {
 func genVarCase(r *RNG, id string, o varOpts) *Case {
 	c := NewCase("VAR", id)
 	L := r.Range(30, 160)
+	sparseLong = o.maxGenes > 0 && !o.smallMutPool && r.Chance(1, 15)
+	defer func() { sparseLong = false }()
+	if sparseLong {
+		L = r.Range(400, 900)
+		c.Tag("long-gene-sparse-substitutions")
+	}
 	genome := randSeq(r, L, symACGT, false)
 	var genes []gene
 	ng := r.Range(0, o.maxGenes)
+	if sparseLong {
+		// one gene over most of the genome (a hundred to three hundred codons)
+		a := r.Range(1, 30)
+		k := (L - a - r.Range(0, 30)) / 3
+		genes = append(genes, gene{name: "glong", strand: 1, codonStart: 1, gffNamed: true, gffID: true, gffType: "CDS", gbForm: "range", segs: [][2]int{{a, a + 3*k - 1}}})
+		ng = r.Range(0, 1)
+	}
 	for i := 0; i < ng; i++ {
 		if g, ok := randGene(r, L, i, o.allowPhase); ok {
 			if o.plusNames && r.Chance(1, 5) {
@@ -708,6 +747,9 @@ func genVarCase(r *RNG, id string, o varOpts) *Case {
 	refmode := r.PickStr([]string{"msa", "msa", "stdin", "ann"})
 	withIns := o.withIns && refmode != "ann"
 	nq := r.Range(1, 6)
+	if sparseLong {
+		nq = r.Range(30, 60)
+	}
 	if o.agg && L <= 60 && r.Chance(1, 12) {
 		// 1024 queries: frequencies k/1024 have ten decimals exactly, so every odd k is an exact tie at the ninth
 		nq = 1024
